@@ -67,18 +67,23 @@ def beat_counts(votes: Dict[Tuple[Candidate, Candidate], int]
     return dict(n_beats)
 
 
-def _smith_schwartz_set(votes: Dict[Tuple[Candidate, Candidate], int],
-                        ties: bool = True,
-                        ) -> List[Candidate]:
-    # a pair nobody ranked counts as zero against zero
+def _complete_pairs(votes: Dict[Tuple[Candidate, Candidate], int]
+                    ) -> Dict[Tuple[Candidate, Candidate], int]:
+    """Add the pairs nobody ranked: they count as zero against zero."""
     candidates = list(dict.fromkeys(cand for pair in votes for cand in pair))
-    votes = {
+    return {
         **{
             (cand1, cand2): 0
             for cand1 in candidates for cand2 in candidates if cand1 != cand2
         },
         **votes
     }
+
+
+def _smith_schwartz_set(votes: Dict[Tuple[Candidate, Candidate], int],
+                        ties: bool = True,
+                        ) -> List[Candidate]:
+    votes = _complete_pairs(votes)
     wins = pairwise_wins(votes, include_ties=ties)
     copeland_scores = Copeland.scores(wins)
     copeland_ordering = list(sorted(
@@ -402,6 +407,7 @@ class MinimaxCondorcet:
         :param n_seats: Number of candidates to select.
         """
         max_counterscore = {}
+        votes = _complete_pairs(votes)
         for pair, score in self.pairwin_scoring(votes).items():
             max_counterscore[pair[1]] = max(
                 max_counterscore.get(pair[1], -float('inf')),
